@@ -263,7 +263,18 @@ func witnessExecText(be textBackend) func(w witness) string {
 			return stage + ": " + err.Error()
 		}
 		rs := resOfModule(mod)
-		tr := be.run(mod, mod.EntryPoints[0].Name, rs, [3]uint32{1, 1, 1}, false, 0, true)
+		oi := 0 // header "// option-set <substring of the option-set name>" selects the option set (default: the first)
+		for _, l := range splitLines(w.Src) {
+			var sub string
+			if n, _ := fmt.Sscanf(l, "// option-set %s", &sub); n == 1 {
+				for i := 0; i < be.nopt(false); i++ {
+					if strings.Contains(be.optName(false, i), sub) {
+						oi = i
+					}
+				}
+			}
+		}
+		tr := be.run(mod, mod.EntryPoints[0].Name, rs, [3]uint32{1, 1, 1}, false, oi, true)
 		switch {
 		case tr.err != nil:
 			return be.name + " backend: " + tr.err.Error()
